@@ -111,6 +111,7 @@ class Ctx:
         self.mirror = os.path.join(self.scratch, 'mirror')
         self.rule_log = []
         self.rule_errors = []
+        self.rule_errors_by_group = {}
         self.mirror_groups = set()
 
     def close(self):
@@ -138,6 +139,7 @@ class Ctx:
                 self.rule_log.append((g, rule['id'], ok, msg))
                 if not ok:
                     self.rule_errors.append('%s/%s: %s' % (g, rule['id'], msg))
+                    self.rule_errors_by_group.setdefault(g, []).append('%s/%s: %s' % (g, rule['id'], msg))
                 for m in rule.get('markers', ()):
                     markers.add(m)
         # default (empty) definitions for every marker
@@ -298,8 +300,12 @@ def build(ctx, ob, res, tag, extra_defines):
 def solve(ctx: Ctx, ob: Ob) -> Result:
     res = Result(ob)
     t0 = time.time()
-    if ctx.rule_errors:
-        res.status, res.detail = 'error', 'must-fire rewrite rule(s) did not fire: ' + '; '.join(ctx.rule_errors)
+    # a must-fire rule that did not fire makes exactly the obligations that depend on its group undecided (exit 2);
+    # obligations that need no rewrite of that group still run (they are what still catches a change that restructures
+    # the annotated code)
+    mine = [e for g in ob.rules for e in ctx.rule_errors_by_group.get(g, [])]
+    if mine:
+        res.status, res.detail = 'error', 'must-fire rewrite rule(s) did not fire: ' + '; '.join(mine)
         return res
     if ob.static is not None:
         try:
